@@ -16,6 +16,7 @@ let parse_op (s : string) : op =
   | ["wr"; i; b] -> OutResult (n i, b = "1")
   | ["sr"; c; b] -> SinkResult (n c, b = "1")
   | ["sd"; h] -> SetDMX (bytes_of_hex h)
+  | ["co"; c; h; p; ts] -> ClientOther (n c, bytes_of_hex h, n p, n ts)
   | ["ao"; i] -> AddOutput (n i) | ["ro"; i] -> RemoveOutput (n i)
   | ["ak"; c] -> AddSink (n c) | ["rk"; c] -> RemoveSink (n c)
   | ["pp"; i; p] -> SetPortPrio (n i, n p)
@@ -29,8 +30,20 @@ let ev_s (buf : n list) (e : event) : string =
   | WriteDMX (p, x, pr) -> Printf.sprintf "W%d:%s:%d" (int_of_n p) (d x) (int_of_n pr)
   | SendDMX (c, x, pr) -> Printf.sprintf "S%d:%s:%d" (int_of_n c) (d x) (int_of_n pr)
 module SS = Set.Make (String)
+(* "tv nsec nusec tsec tusec": DmxSource::IsSet / IsActive on raw struct timeval values *)
+let handle_tv (a : string list) : string =
+  match a with
+  | [_; ns; nu; ts; tu] ->
+    let now = (n_of_string ns, n_of_string nu) and t = (n_of_string ts, n_of_string tu) in
+    Printf.sprintf "bset=%s;bact=%s;class=timeval" (bool01 (tv_isset t)) (bool01 (tv_active now t))
+  | _ -> "bad-tv"
 let handle (p : string) : string =
+  if String.length p > 3 && String.sub p 0 3 = "tv " then handle_tv (split p) else
   let b = Buffer.create 256 in
+  let np = new_port in
+  Buffer.add_string b (Printf.sprintf "init=%s/%d/%d/%s/%d/%s;" (bool01 init_world.w_u.u_ltp)
+    (int_of_n init_world.w_u.u_prio) (int_of_n np.p_static) (bool01 np.p_inherit) (int_of_n np.p_inherited)
+    (bool01 np.p_caps));
   let w = ref init_world in
   let kinds = ref SS.empty in
   let k = ref 0 in
